@@ -61,7 +61,33 @@ impl Rng {
     pub fn pick<'a, T>(&mut self, xs: &'a [T]) -> &'a T {
         &xs[self.usize_below(xs.len())]
     }
+    /// Payload bytes: mostly random, one time in ten structured (all zero, all ones, one repeated
+    /// byte, zeros with a single non-zero byte, random then zero) - data-dependent code paths
+    /// (zero detection, run-length tricks) see their trigger values.
     pub fn bytes(&mut self, n: usize) -> Vec<u8> {
+        if n >= 2 && self.below(10) == 0 {
+            return match self.below(5) {
+                0 => vec![0u8; n],
+                1 => vec![0xffu8; n],
+                2 => vec![self.byte(); n],
+                3 => {
+                    let mut v = vec![0u8; n];
+                    let i = self.usize_below(n);
+                    v[i] = self.byte() | 1;
+                    v
+                }
+                _ => {
+                    let mut v = self.random_bytes(n);
+                    for b in v.iter_mut().skip(n / 2) {
+                        *b = 0;
+                    }
+                    v
+                }
+            };
+        }
+        self.random_bytes(n)
+    }
+    pub fn random_bytes(&mut self, n: usize) -> Vec<u8> {
         let mut v = Vec::with_capacity(n);
         while v.len() < n {
             let x = self.next().to_le_bytes();
